@@ -25,6 +25,7 @@ use fe2o3_amqp_types::sasl::{SaslChallenge, SaslResponse};
 use fe2o3_amqp_types::transaction::{Declare, Declared, Discharge, TransactionalState};
 use serde::de::DeserializeOwned;
 use serde::Serialize;
+use serde_amqp::primitives::Array;
 use serde_amqp::Value;
 use serde_bytes::ByteBuf;
 use std::panic::{catch_unwind, AssertUnwindSafe};
@@ -178,9 +179,18 @@ fn run_item<T: Comp + Serialize + DeserializeOwned>(x: &T, r: &mut Rng, out: &mu
         if dflts.is_empty() { "-".to_string() } else { dflts.iter().map(|d| d.as_ref().map(|b| hex(b)).unwrap_or("-".into())).collect::<Vec<_>>().join(",") },
         join(&fields)
     );
-    let expect = join(&fields);
-    // a `multiple` field holding an empty array is normalised to None by the decoder
-    let normal = !fields.iter().zip(kinds).any(|(f, k)| *k == b'U' && (f[..] == [0xe0, 0x01, 0x00] || f[..] == [0xf0, 0, 0, 0, 4, 0, 0, 0, 0]));
+    // a `multiple` field holding a zero-length array is normalised to None by the decoder (the specification calls the two
+    // semantically identical): that is what the decoded field vector is expected to show
+    let normalised: Vec<Vec<u8>> = fields
+        .iter()
+        .zip(kinds)
+        .map(|(f, k)| if *k == b'U' && (f[..] == [0xe0, 0x01, 0x00] || f[..] == [0xf0, 0, 0, 0, 4, 0, 0, 0, 0]) { vec![0x40] } else { f.clone() })
+        .collect();
+    if normalised != fields {
+        out.count("items with a zero-length array in a `multiple` field");
+    }
+    let expect = join(&normalised);
+    let normal = true;
     out.count(&format!("type {}", T::TYPE));
     // canonical form
     let enc = match catch_unwind(AssertUnwindSafe(|| serde_amqp::to_vec(x))) {
@@ -314,9 +324,41 @@ const N_TYPES: u64 = 28;
 
 fn one(r: &mut Rng, which: u64, deep: u32, out: &mut Outputs) {
     match which {
-        0 => run_item(&typed::gen_open(r, deep), r, out),
-        1 => run_item(&typed::gen_begin(r, deep), r, out),
-        2 => run_item(&typed::gen_attach(r, deep), r, out),
+        0 => {
+            let mut x = typed::gen_open(r, deep);
+            if r.chance(1, 4) {
+                // a zero-length array in a `multiple` field (the typed generator never makes one: the decoder turns it into None)
+                match r.below(4) {
+                    0 => x.outgoing_locales = Some(Array(vec![])),
+                    1 => x.incoming_locales = Some(Array(vec![])),
+                    2 => x.offered_capabilities = Some(Array(vec![])),
+                    _ => x.desired_capabilities = Some(Array(vec![])),
+                }
+            }
+            run_item(&x, r, out)
+        }
+        1 => {
+            let mut x = typed::gen_begin(r, deep);
+            if r.chance(1, 4) {
+                if r.chance(1, 2) {
+                    x.offered_capabilities = Some(Array(vec![]));
+                } else {
+                    x.desired_capabilities = Some(Array(vec![]));
+                }
+            }
+            run_item(&x, r, out)
+        }
+        2 => {
+            let mut x = typed::gen_attach(r, deep);
+            if r.chance(1, 4) {
+                if r.chance(1, 2) {
+                    x.offered_capabilities = Some(Array(vec![]));
+                } else {
+                    x.desired_capabilities = Some(Array(vec![]));
+                }
+            }
+            run_item(&x, r, out)
+        }
         3 => run_item(&typed::gen_flow(r, deep), r, out),
         4 => run_item(&typed::gen_transfer(r, deep), r, out),
         5 => run_item(&typed::gen_disposition(r, deep), r, out),
